@@ -19,6 +19,7 @@ CHECKS = {
  "C08": ("exploration", "seeded search over OCI-layout histories with restart (reopen via New/NewFromFS/NewFromTar) as an operation; original vs reopened observable state and raw directory validity", SIM + " with restart-as-operation; differential original vs reopened + on-disk validator", "4.C08"),
  "C09": ("exploration", "seeded search over OCI-layout histories with referrer chains, moved tags, tagged referrers and stray files, compared after every step with an executable garbage-collection model; termination by disk-operation budget", SIM + "; executable GC reference model + operation-budget termination check", "4.C09"),
  "C10": ("fault_enumeration", "sampled histories; for each, the victim operation's mutating disk operations are counted and the disk is frozen before every one of them in turn (complete enumeration of crash points per victim); after each crash the directory is reopened by a fresh store and validated", SIM + "; exhaustive crash-point enumeration per sampled history at the disk seam", "4.C10"),
+ "C05": ("exploration", "seeded search over descriptor variants x faulty readers (chunking, zero-byte reads, early EOF, error at offset, trailing bytes) x concurrent good/bad pushers under one digest, interleaved at lock and disk-operation granularity, with a watcher task inspecting blobs/ between operations", SIM + " with byte-stream fault seam; visibility oracle during and after the run", "4.C05"),
 }
 ids = [json.loads(l)["id"] for l in open(os.path.join(V, "properties.jsonl"))]
 checks = []
